@@ -36,7 +36,7 @@ PROPS = {
           'scan, reshuffle, reduce, cogroup; sliceio.MultiReader, FrameReader; exec multiReader and task-buffer reader (verif export); the '
           'decoding reader over a stream encoded in batches that follow the chunk script, spill readers (Spiller with SpillBatchSize 1,3,50,128), '
           'and the decoding reader over a file-store and a memory-store partition; '
-          'Scanner.Scan/Scanv incl. wrong arity/type. Bounded-exhaustive over sizes {0,1,2,3,5,6,127,128,129,300} x 9 chunk scripts x 8 '
+          'Scanner.Scan/Scanv incl. wrong arity/type on the first call and after 1, 2, 130 correct calls. Bounded-exhaustive over sizes {0,1,2,3,5,6,127,128,129,300} x 9 chunk scripts x 8 '
           'destination scripts (quick: every 4th), plus seeded random cases. Oracle: row-level statement of each operator; 0<=n<=len(dst); '
           'canary rows beyond n intact on successful calls; frames delivered earlier unchanged at the end. Non-trivial: the case completed '
           'with a reader actually driven; distinct by descriptor.',
@@ -52,7 +52,7 @@ PROPS = {
           must_observe=['key_sequences', 'table_resizes', 'combiners_that_spilled', 'spill_dir_checks'], leftover_is_violation=True),
  'C18': P('exploration',
           'every (constructor, slice type, function signature) triple of the cross product: 8 function-taking constructors x 18 slice types '
-          '(prefix 1, 2 and 3; unhashable and op-less keys in the first and in later key columns) x ~700 signatures built with reflect.MakeFunc (exact, context-first, permuted, arity +-1, '
+          '(prefix 1, 2 and 3; unhashable and op-less keys in the first and in later key columns) x ~700 signatures built with reflect.MakeFunc (exact, context-first, context in a non-leading position, permuted, arity +-1, '
           'interface-typed, variadic, accumulator-first, writer/reader shaped, 15 result lists, non-func values), plus structural constructors '
           '(Const, Prefixed, Head, Scan, Reshuffle, Reshard, Cogroup over all pairs). Exhaustive in that universe. Oracle: independent schema '
           'table (c18expected) + any panic must be a *typecheck.Error located at the calling line. Each Case is one (constructor, slice type) '
@@ -147,7 +147,7 @@ PROPS = {
           nbatch=(16, 16), timeout=(900, 3400),
           must_observe=['persistent_failures_reported', 'one_shot_failures_recovered', 'sessions_reused_after_failure']),
  'C13': P('fault_enumeration',
-          'cases = (executor, Cache|CachePartial, position of the cache operator in {head, middle, after a filter that keeps nothing (empty shards), after a Materialize-pragma dependency, before a shuffle, after a shuffle, under a Head}, '
+          'cases = (executor, Cache|CachePartial, position of the cache operator in {head, middle, directly under Prefixed, after a filter that keeps nothing (empty shards), after a Materialize-pragma dependency, before a shuffle, after a shuffle, under a Head}, '
           'shard count 1..3 (quick) / 1..4 (thorough), subset of shard files present before the second run (all subsets), fault plan). Fault plans: '
           'none; one fault at file-operation ordinal k of the write-through (k over the fault-free trace of the same program, quick: every 3rd/7th), '
           'optionally as a short write; the 1st/2nd Create or Close; every Write from ordinal k on failing persistently (k over the trace, so that no '
@@ -164,7 +164,8 @@ PROPS = {
           'each scenario is repeated 5 (quick) / 40 (thorough) times; GOMAXPROCS is 1,2,4,16 by child batch. Built with the race detector in both '
           'tiers: every report with a bigslice frame is a violation (third-party-only reports are counted and ignored). Oracle: every concurrent run '
           'succeeds with its solo reference rows; scans yield reference rows (or an error once the result was discarded); executions of the same '
-          'shared task (a source shard of the base program) never overlap in time; every operation returns (stall rule, else inconclusive). '
+          'shared task (a source shard of the base program) never overlap in time; every operation returns (stall rule, else inconclusive). A fixed family has one '
+          'of four concurrent runs fail by script while all wait for the recomputation of the discarded shared result: it returns its error, the others succeed. '
           'Non-trivial: >=2 runs were started together over a shared result; distinct by scenario x repetition.',
           variants={'quick': ['race'], 'thorough': ['race']}, nbatch=(16, 16), timeout=(1200, 3400), vary_gomaxprocs=True,
           must_observe=['concurrent_runs_ok', 'scenarios_with_all_runs_overlapping', 'shared_source_attempts']),
@@ -184,7 +185,7 @@ PROPS = {
           'three monitors. (a) placement: every configuration of <= 2 (quick) / 4 (thorough) queued requests (priority 0..2, procs 1..4) and <= 3 '
           'machines (capacity 1..4, any load) is given to the real schedule() (verif export); oracle: an independent implementation of the documented '
           'rule compared on (priority, procs) of the chosen request and free capacity of the chosen machine, plus fit, preservation of both queues '
-          'and heap-index consistency; exhaustive in that space. (b) live manager: seeded histories of offer / receive / cancel / done(ok | remote '
+          'and heap-index consistency; exhaustive in that space. (b) live manager: seeded histories of offer / receive / cancel (after trying to receive, or blindly) / done(ok | remote '
           'error | transport error) / kill over a real machineManager on a testsystem, max-load in {0.3,0.5,0.9,0.95,1} x machine procs {1,2,3,4} x parallelism '
           '{1,3,8}; the capacity the manager uses is compared with an independent integer statement (procs x percent / 100, at least 1); a loop hook (tag verif) publishes a copy of the manager state at every iteration, on which 0<=taskProcs<=capacity, need>=0, '
           'pending>=0 are asserted; a client-side ledger cross-checks grants; at the end quiescence (all returned/cancelled => need=0, queue empty, '
@@ -197,7 +198,7 @@ PROPS = {
  'C15': P('fault_enumeration',
           'three monitors. (a) sequences: every operation sequence up to length 4 (quick, every 3rd) / 5 (thorough) over the alphabet {create, '
           'write 5, write 300, commit, discard-writer, open, open at offset 3, stat, discard} on both store implementations, fault-free; plus six '
-          'write/commit/read protocols (two of them with two writers open for one partition) on both stores fault-free and on the file store with a fault (optionally a short write) injected at every file-operation ordinal 0..23 '
+          'write/commit/read protocols (two of them with two writers open for one partition, two over several partitions of one task) on both stores fault-free and on the file store with a fault (optionally a short write) injected at every file-operation ordinal 0..23 '
           'through the vfault file system. Oracle: a per-partition model: Open/Stat fail before a successful commit; afterwards Open(o) returns '
           'exactly committed[o:], Stat the committed size and record count, until discarded; a Commit that returned nil must have persisted the '
           'data (the next Open must succeed with those bytes). (b) retry reader (verif export) over a scripted stream: a transient failure at every '
